@@ -37,6 +37,16 @@ pub enum T {
     Val,
 }
 
+#[derive(Clone, Copy, PartialEq, Debug)]
+pub enum Mode {
+    /// a pure function with early returns: `Id.run do`
+    Id,
+    /// a closure returning `Result<_, SemverParseError>`: `do` in `Except`
+    Result,
+    /// a winnow parser written as statements: `do` in `Winnow.Parser`
+    Parser,
+}
+
 pub struct Line {
     pub ind: usize,
     pub text: String,
@@ -51,6 +61,11 @@ pub struct Fx<'a> {
     pub display: Option<String>,
     pub sites: Vec<Site>,
     pub calls: BTreeSet<String>,
+    pub mode: Mode,
+    /// closures of the current function that are emitted as definitions of their own: (line, column) -> reference
+    pub closure_refs: HashMap<(usize, usize), String>,
+    /// name of the enclosing parser function (for nested `fn parser`)
+    pub enclosing: String,
     tmp: usize,
 }
 
@@ -180,7 +195,7 @@ fn render(lines: &[Line]) -> String {
 
 impl<'a> Fx<'a> {
     pub fn new(krate: &'a Crate, self_ty: Option<String>) -> Self {
-        Fx { krate, self_ty, var_ty: HashMap::new(), display: None, sites: vec![], calls: BTreeSet::new(), tmp: 0 }
+        Fx { krate, self_ty, var_ty: HashMap::new(), display: None, sites: vec![], calls: BTreeSet::new(), mode: Mode::Id, closure_refs: HashMap::new(), enclosing: String::new(), tmp: 0 }
     }
 
     fn site(&mut self, kind: &str, sp: proc_macro2::Span, text: String) {
@@ -312,13 +327,19 @@ impl<'a> Fx<'a> {
         ))
     }
 
-    pub fn closure_item(&mut self, c: &ExprClosure, lean: &str, params: &[&str], ret: &str, func: &str) -> R<String> {
-        if c.inputs.len() != params.len() {
-            return Err(format!("closure takes {} parameters, {} expected", c.inputs.len(), params.len()));
+    pub fn closure_item(&mut self, c: &ExprClosure, lean: &str, captures: &[&str], params: &[&str], ret: &str, func: &str) -> R<String> {
+        if c.inputs.len() + captures.len() != params.len() {
+            return Err(format!("closure takes {} parameters and {} captures, {} types given", c.inputs.len(), captures.len(), params.len()));
         }
         let mut binders = vec![];
         let mut pre = vec![];
-        for (p, t) in c.inputs.iter().zip(params) {
+        for (cap, t) in captures.iter().zip(params) {
+            binders.push(format!("({} : {})", ident_name(cap), t));
+        }
+        if ret.starts_with("(Except") {
+            self.mode = Mode::Result;
+        }
+        for (p, t) in c.inputs.iter().zip(&params[captures.len()..]) {
             let p = match p {
                 Pat::Type(pt) => &*pt.pat,
                 p => p,
@@ -345,7 +366,7 @@ impl<'a> Fx<'a> {
                 Expr::Block(b) => lines.extend(self.stmts(&b.block, 1, T::Ret)?),
                 e => lines.extend(self.tail_stmt(e, 1, T::Ret)?),
             }
-            format!(" Id.run do\n{}", render(&lines))
+            format!(" {}\n{}", if self.mode == Mode::Result { "do" } else { "Id.run do" }, render(&lines))
         } else {
             let t = match &*c.body {
                 Expr::Match(m) => self.match_term(m, true)?,
@@ -355,6 +376,208 @@ impl<'a> Fx<'a> {
             format!("\n  {}{}\n", pre_s, t.replace('\n', "\n  "))
         };
         Ok(format!("{}{}{}", doc, head, body))
+    }
+
+
+    // ----------------------------------------------------------------------------------- parsers
+    /// closures of `f` that the configuration emits as definitions of their own: references to them
+    pub fn register_closures(&mut self, f: &FnInfo) {
+        let cls = closures_of(&f.block);
+        for it in config::ITEMS {
+            if let config::Item::Closure { func, idx, lean, captures, .. } = it {
+                if *func == f.qual {
+                    if let Some(c) = cls.get(*idx) {
+                        let st = c.span().start();
+                        let r = if captures.is_empty() {
+                            lean.to_string()
+                        } else {
+                            format!("({} {})", lean, captures.iter().map(|c| ident_name(c)).collect::<Vec<_>>().join(" "))
+                        };
+                        self.closure_refs.insert((st.line, st.column), r);
+                    }
+                }
+            }
+        }
+    }
+
+    /// a winnow parser of the crate: `fn name(input: &mut &str) -> PResult<T, _>`
+    pub fn parser_fn(&mut self, f: &FnInfo, lname: &str) -> R<String> {
+        let out = parser_output(&f.sig).ok_or("not the signature of a parser: (input: &mut &str) -> PResult<T, _>")?;
+        let t = self.ty(&out)?;
+        self.mode = Mode::Parser;
+        self.enclosing = f.qual.clone();
+        let doc = format!("/-- parser `{}` ({}:{}-{}) -/\n", f.qual, f.file, f.line, f.end_line);
+        // statements other than `use` and nested functions?
+        let real: Vec<&Stmt> = f.block.stmts.iter().filter(|s| !matches!(s, Stmt::Item(_))).collect();
+        if real.len() == 1 {
+            if let Stmt::Expr(e, None) = real[0] {
+                // one combinator expression; `input` inside it is the input at the start (closures capture it there)
+                let body = self.pexpr(e)?;
+                return Ok(format!("{}def {} : Winnow.Parser {} := fun input =>\n  {} input\n", doc, lname, t, body));
+            }
+        }
+        let lines = self.stmts(&f.block, 1, T::Ret)?;
+        Ok(format!("{}def {} : Winnow.Parser {} := do\n{}", doc, lname, t, render(&lines)))
+    }
+
+    /// `p.parse_next(input)` or `f(input)`: the parser that is run
+    fn monadic(&mut self, e: &Expr) -> R<String> {
+        match self.mode {
+            Mode::Parser => match e {
+                Expr::MethodCall(m) if m.method == "parse_next" && m.args.len() == 1 && is_input(&m.args[0]) => self.pexpr(&m.receiver),
+                Expr::Call(c) if c.args.len() == 1 && is_input(&c.args[0]) => self.pexpr(&c.func),
+                Expr::Paren(p) => self.monadic(&p.expr),
+                _ => Err(format!("`?` on something other than a parser applied to `input`: `{}`", short(e))),
+            },
+            Mode::Result => self.expr(e),
+            Mode::Id => Err("`?` in a function that is not fallible".into()),
+        }
+    }
+
+    /// the value of a fallible function or closure: `Ok(v)`, `Err(e)`, or (parsers) `p.parse_next(input)`
+    fn result_value(&mut self, e: &Expr, is_return: bool) -> R<String> {
+        let kw = if is_return { "return" } else { "pure" };
+        match e {
+            Expr::Paren(p) => self.result_value(&p.expr, is_return),
+            Expr::Call(c) if c.func.to_token_stream().to_string() == "Ok" && c.args.len() == 1 => {
+                Ok(format!("{} {}", kw, self.expr_atom(&c.args[0])?))
+            }
+            Expr::Call(c) if c.func.to_token_stream().to_string() == "Err" && c.args.len() == 1 => {
+                let v = self.expr_atom(&c.args[0])?;
+                Ok(match self.mode {
+                    Mode::Parser => format!("Winnow.fail {}", v),
+                    _ => format!("throw {}", v),
+                })
+            }
+            Expr::Try(t) => self.monadic(&t.expr),
+            _ if self.mode == Mode::Parser => self.monadic(e),
+            _ => Err(format!("the value of a fallible function is neither `Ok(..)` nor `Err(..)`: `{}`", short(e))),
+        }
+    }
+
+    /// a parser-valued expression
+    pub fn pexpr(&mut self, e: &Expr) -> R<String> {
+        match e {
+            Expr::Paren(p) => self.pexpr(&p.expr),
+            Expr::Path(p) => {
+                let segs: Vec<String> = p.path.segments.iter().map(|s| s.ident.to_string()).collect();
+                if segs.len() != 1 {
+                    return Err(format!("unsupported parser `{}`", segs.join("::")));
+                }
+                let n = &segs[0];
+                match n.as_str() {
+                    "space0" | "space1" | "digit1" | "eof" | "any" => return Ok(format!("Winnow.{}", n)),
+                    _ => {}
+                }
+                // nested function of the enclosing parser, then free functions
+                let nested = format!("{}::{}", self.enclosing, n);
+                for q in [nested, n.clone()] {
+                    if let Some(f) = self.krate.fns.iter().find(|f| f.qual == q) {
+                        if parser_output(&f.sig).is_some() {
+                            self.calls.insert(q.clone());
+                            return Ok(format!("Semver.Gen.{}", q.replace("::", "_")));
+                        }
+                    }
+                }
+                Err(format!("`{}` is not a parser the translator knows", n))
+            }
+            Expr::Tuple(t) => {
+                let n = t.elems.len();
+                if !(2..=6).contains(&n) {
+                    return Err(format!("a sequence of {} parsers", n));
+                }
+                let parts: R<Vec<String>> = t.elems.iter().map(|x| self.pexpr_atom(x)).collect();
+                Ok(format!("(Winnow.seq{} {})", n, parts?.join(" ")))
+            }
+            Expr::MethodCall(m) => {
+                let name = m.method.to_string();
+                match (name.as_str(), m.args.len()) {
+                    ("parse_next", 1) if is_input(&m.args[0]) => self.pexpr(&m.receiver),
+                    ("map", 1) => Ok(format!("(Winnow.map {} {})", self.pexpr_atom(&m.receiver)?, self.expr_atom(&m.args[0])?)),
+                    ("try_map", 1) => Ok(format!("(Winnow.tryMap {} {})", self.pexpr_atom(&m.receiver)?, self.expr_atom(&m.args[0])?)),
+                    ("take", 0) => Ok(format!("(Winnow.take {})", self.pexpr_atom(&m.receiver)?)),
+                    ("context", 1) => match &m.args[0] {
+                        Expr::Lit(ExprLit { lit: Lit::Str(sl), .. }) => {
+                            Ok(format!("(Winnow.context {:?} {})", sl.value(), self.pexpr_atom(&m.receiver)?))
+                        }
+                        _ => Err("context(..) without a string literal".into()),
+                    },
+                    _ => Err(format!("parser method `{}` is not modelled", name)),
+                }
+            }
+            Expr::Call(c) => {
+                let Expr::Path(p) = &*c.func else { return Err("call of a computed parser".into()) };
+                let segs: Vec<String> = p.path.segments.iter().map(|s| s.ident.to_string()).collect();
+                let joined = segs.join("::");
+                let a: Vec<&Expr> = c.args.iter().collect();
+                match (joined.as_str(), a.len()) {
+                    ("literal", 1) => match a[0] {
+                        Expr::Lit(ExprLit { lit: Lit::Str(sl), .. }) => Ok(format!("(Winnow.literal {})", lit_chars(&sl.value()))),
+                        _ => Err("literal(..) without a string literal".into()),
+                    },
+                    ("opt", 1) => Ok(format!("(Winnow.opt {})", self.pexpr_atom(a[0])?)),
+                    ("peek", 1) => Ok(format!("(Winnow.peek {})", self.pexpr_atom(a[0])?)),
+                    ("alt", 1) => match a[0] {
+                        Expr::Tuple(t) => {
+                            let parts: R<Vec<String>> = t.elems.iter().map(|x| self.pexpr(x)).collect();
+                            Ok(format!("(Winnow.alt [{}])", parts?.join(", ")))
+                        }
+                        _ => Err("alt(..) without a tuple".into()),
+                    },
+                    ("preceded", 2) => Ok(format!("(Winnow.preceded {} {})", self.pexpr_atom(a[0])?, self.pexpr_atom(a[1])?)),
+                    ("terminated", 2) => Ok(format!("(Winnow.terminated {} {})", self.pexpr_atom(a[0])?, self.pexpr_atom(a[1])?)),
+                    ("delimited", 3) => Ok(format!(
+                        "(Winnow.delimited {} {} {})",
+                        self.pexpr_atom(a[0])?,
+                        self.pexpr_atom(a[1])?,
+                        self.pexpr_atom(a[2])?
+                    )),
+                    ("separated", 3) => {
+                        let r = a[0].to_token_stream().to_string().replace(' ', "");
+                        let f = match r.as_str() {
+                            "0.." => "separated0",
+                            "1.." => "separated1",
+                            _ => return Err(format!("separated({}, ..) is not modelled", r)),
+                        };
+                        Ok(format!("(Winnow.{} {} {})", f, self.pexpr_atom(a[1])?, self.pexpr_atom(a[2])?))
+                    }
+                    ("repeat_till", 3) => {
+                        let r = a[0].to_token_stream().to_string().replace(' ', "");
+                        if r != "0.." {
+                            return Err(format!("repeat_till({}, ..) is not modelled", r));
+                        }
+                        Ok(format!(
+                            "(fun s => Winnow.repeatTill0 {} {} (s.length + 1) s)",
+                            self.pexpr_atom(a[1])?,
+                            self.pexpr_atom(a[2])?
+                        ))
+                    }
+                    ("take_while", 2) => {
+                        let r = a[0].to_token_stream().to_string().replace(' ', "");
+                        let f = match r.as_str() {
+                            "0.." => "takeWhile0",
+                            "1.." => "takeWhile1",
+                            _ => return Err(format!("take_while({}, ..) is not modelled", r)),
+                        };
+                        Ok(format!("(Winnow.{} {})", f, self.expr_atom(a[1])?))
+                    }
+                    ("Parser::map", 2) => Ok(format!("(Winnow.map {} {})", self.pexpr_atom(a[0])?, self.expr_atom(a[1])?)),
+                    ("Parser::try_map", 2) => Ok(format!("(Winnow.tryMap {} {})", self.pexpr_atom(a[0])?, self.expr_atom(a[1])?)),
+                    ("Parser::take", 1) => Ok(format!("(Winnow.take {})", self.pexpr_atom(a[0])?)),
+                    _ => Err(format!("parser combinator `{}` with {} arguments is not modelled", joined, a.len())),
+                }
+            }
+            _ => Err(format!("unsupported parser expression `{}`", short(e))),
+        }
+    }
+
+    fn pexpr_atom(&mut self, e: &Expr) -> R<String> {
+        let s = self.pexpr(e)?;
+        if s.starts_with('(') || !s.contains(' ') {
+            Ok(s)
+        } else {
+            Ok(format!("({})", s))
+        }
     }
 
     // -------------------------------------------------------------------------------- statements
@@ -393,6 +616,10 @@ impl<'a> Fx<'a> {
         if init.diverge.is_some() {
             return Err("let-else is not supported".into());
         }
+        if let (Pat::Wild(_), Expr::Try(t)) = (pat, &*init.expr) {
+            let m = self.monadic(&t.expr)?;
+            return Ok(vec![Line { ind, text: format!("let _ ← {}", m) }]);
+        }
         if let Pat::Wild(_) = pat {
             // `let _ = e;` with a pure `e`
             if expr_needs_do(&init.expr) {
@@ -415,6 +642,13 @@ impl<'a> Fx<'a> {
             return Err("`let mut` with a pattern".into());
         }
         let ann_s = ann.map(|a| format!(" : {}", a)).unwrap_or_default();
+        if let Expr::Try(t) = &*init.expr {
+            let m = self.monadic(&t.expr)?;
+            return Ok(vec![Line { ind, text: format!("let {}{}{} ← {}", if mutable { "mut " } else { "" }, alts[0], ann_s, m) }]);
+        }
+        if self.mode == Mode::Parser && init.expr.to_token_stream().to_string().replace(' ', "") == "input.clone()" {
+            return Ok(vec![Line { ind, text: format!("let {}{} ← Winnow.getInput", alts[0], ann_s) }]);
+        }
         if expr_needs_do(&init.expr) && matches!(&*init.expr, Expr::Match(_) | Expr::If(_) | Expr::Block(_)) {
             // the value of a block with statements inside: `let x ← <do block ending in pure v>`
             let mut out = vec![Line { ind, text: format!("let {}{}{} ← (do", if mutable { "mut " } else { "" }, alts[0], ann_s) }];
@@ -529,6 +763,11 @@ impl<'a> Fx<'a> {
     /// an expression in statement position (its value, if any, is `()`)
     fn expr_stmt(&mut self, e: &Expr, ind: usize) -> R<Vec<Line>> {
         match e {
+            Expr::Return(r) if self.mode != Mode::Id => {
+                // `return Ok(v)` / `return Err(e)`
+                let x = r.expr.as_ref().ok_or("`return` without a value in a fallible function")?;
+                Ok(vec![Line { ind, text: self.result_value(x, true)? }])
+            }
             Expr::Return(r) => {
                 let v = match &r.expr {
                     Some(x) => {
@@ -634,6 +873,27 @@ impl<'a> Fx<'a> {
                 Expr::Match(m) => return self.match_stmt(m, ind, tail),
                 Expr::Block(b) => return self.stmts(&b.block, ind, tail),
                 _ => return Err(format!("Display::fmt: unsupported final expression `{}`", short(e))),
+            }
+        }
+        if self.mode != Mode::Id && tail == T::Ret {
+            // the value of a fallible function: `Ok(v)`, `Err(e)`, `p.parse_next(input)`, or control flow around them
+            match e {
+                Expr::If(i) => return self.if_stmt(i, ind, tail),
+                Expr::Match(m) if expr_needs_do(e) || true => {
+                    if !m.arms.iter().any(|a| a.guard.is_some()) {
+                        return self.match_stmt(m, ind, tail);
+                    }
+                }
+                Expr::Block(b) => return self.stmts(&b.block, ind, tail),
+                _ => {}
+            }
+            return Ok(vec![Line { ind, text: self.result_value(e, false)? }]);
+        }
+        if let Expr::Try(t) = e {
+            // `x?` as the value of a block inside a fallible function
+            let m = self.monadic(&t.expr)?;
+            if tail == T::Val {
+                return Ok(vec![Line { ind, text: m }]);
             }
         }
         if !expr_needs_do(e) {
@@ -1075,6 +1335,10 @@ impl<'a> Fx<'a> {
             Expr::MethodCall(m) => self.method_call(m),
             Expr::Macro(m) => self.macro_expr(&m.mac),
             Expr::Closure(c) => {
+                let st = c.span().start();
+                if let Some(r) = self.closure_refs.get(&(st.line, st.column)) {
+                    return Ok(r.clone());
+                }
                 let mut ps = vec![];
                 for p in &c.inputs {
                     let p = match p {
@@ -1103,7 +1367,7 @@ impl<'a> Fx<'a> {
                         Member::Named(n) => n.to_string(),
                         _ => return Err("tuple field in a struct literal".into()),
                     };
-                    fs.push(format!("{} := {}", lean_field(&fname), self.expr(&f.expr)?));
+                    fs.push(format!("{} := {}", struct_field(&name, &fname), self.expr(&f.expr)?));
                 }
                 match &s.rest {
                     Some(r) => Ok(format!("({{ {} with {} }} : {})", self.expr(r)?, fs.join(", "), lean_ty)),
@@ -1192,11 +1456,23 @@ impl<'a> Fx<'a> {
         // std
         match joined.as_str() {
             "Some" => return Ok(format!("(some {})", args.join(" "))),
+            "Ok" if self.mode == Mode::Result => return Ok(format!("(Except.ok {})", args.join(" "))),
+            "Err" if self.mode == Mode::Result => return Ok(format!("(Except.error {})", args.join(" "))),
             "Ok" => return Err("`Ok(..)` outside Display::fmt".into()),
             "Box::new" => return Ok(args[0].clone()),
             "Vec::new" | "Vec::with_capacity" => return Ok("[]".into()),
             "std::cmp::max" | "cmp::max" => return Ok(format!("(Rust.max {})", args.join(" "))),
             "std::cmp::min" | "cmp::min" => return Ok(format!("(Rust.min {})", args.join(" "))),
+            // `str::parse::<u64>(s)`; without the turbofish the crate compares the result with a `u64`
+            "str::parse" => {
+                let last_seg = p.path.segments.last().unwrap();
+                let tf = last_seg.arguments.to_token_stream().to_string().replace(' ', "");
+                if tf.is_empty() || tf == "::<u64>" {
+                    return Ok(format!("(Rust.str_parse_u64 {})", args.join(" ")));
+                }
+                return Err(format!("str::parse{} is not modelled", tf));
+            }
+            "Default::default" if args.is_empty() => return Ok("default".into()),
             _ => {}
         }
         // newtype constructor
@@ -1305,6 +1581,10 @@ impl<'a> Fx<'a> {
             ("min", 1) => format!("(Rust.min {} {})", recv, a),
             ("enumerate", 0) => format!("(Rust.enumerate {})", recv),
             ("try_fold", 2) => format!("(Rust.try_fold_option {} {})", recv, a),
+            ("is_ascii_alphanumeric", 0) => format!("(Rust.is_ascii_alphanumeric {})", recv),
+            ("is_ascii_digit", 0) => format!("(Rust.is_ascii_digit {})", recv),
+            ("map_err", 1) => format!("(Rust.map_err {} {})", recv, a),
+            ("unwrap_or_else", 1) => format!("(Rust.unwrap_or_else {} {})", recv, a),
             _ => return Err(format!("method `{}` with {} arguments is not modelled", name, args.len())),
         };
         Ok(s)
@@ -1329,6 +1609,10 @@ impl<'a> Fx<'a> {
             _ => Err(format!("unsupported macro `{}!` in an expression", n)),
         }
     }
+}
+
+fn is_input(e: &Expr) -> bool {
+    e.to_token_stream().to_string() == "input"
 }
 
 fn strip_refs(e: &Expr) -> &Expr {
